@@ -21,7 +21,7 @@ RULE = ("cases = (literal, position): literals of length 0..40 over the clean al
         "(column DEFAULT, column COMMENT, table COMMENT hql, table COMMENT = snowflake, inline CHECK comparand, named table CHECK, "
         "CREATE TYPE enum value, mysql ENUM column value, LOCATION, TBLPROPERTIES value, schema COMMENT, ALTER ADD DEFAULT FOR); "
         "numeric defaults of 1..19 digits with leading zeros. Non-trivial = every (literal, position) pair; distinct = distinct pair.")
-RULE += (" Added after seeded defects: the respacing known finding is classified by a frozen executable model of the pinned substitutions (anything else on such a literal is a violation), more parenthesis literals, a backslash-escaped quote class (verbatim at the two positions that translate the placeholder back, exact-model known finding elsewhere); words that are or merely contain a grammar keyword (FOR, forever, platform ... over every keyword); BigQuery column/table OPTIONS(description=...) as two more positions; the same texts as double-quoted literals (with ' # ', ' -- ' inside) in every position that reads them.")
+RULE += (" Added after seeded defects: the respacing known finding is classified by a frozen executable model of the pinned substitutions (anything else on such a literal is a violation), more parenthesis literals, a backslash-escaped quote class (verbatim at the two positions that translate the placeholder back, exact-model known finding elsewhere); words that are or merely contain a grammar keyword (FOR, forever, platform ... over every keyword); BigQuery column/table OPTIONS(description=...) as two more positions; the same texts as double-quoted literals (with ' # ', ' -- ' inside) in every position that reads them; Snowflake string-valued table options (PATTERN, CATALOG, TABLE_FORMAT, FILE_FORMAT TYPE / NULL_IF members) as five more positions.")
 ASSUMPTIONS = ["no literal contains an unpaired quote or a backslash", "a literal is placed on one line (no TAB/newline directly before it: C05 owns that)"]
 MIN_EVENTS = {"statements": 100, "run_return": 100}
 
@@ -71,6 +71,12 @@ POS = {
 }
 POS["bq_coloption"] = ("CREATE TABLE p.d.t (\n  a INT64 OPTIONS(description={L}),\n  b INT64\n);", (0, "columns", 0, "options", 0, "description"), "bigquery", None)
 POS["bq_taboption"] = ("CREATE TABLE p.d.t (\n  a INT64\n) OPTIONS(description={L});", (0, "options", 0, "description"), "bigquery", None)
+# string-valued Snowflake table options
+POS["sf_pattern"] = ("CREATE TABLE t (\n  a int\n) PATTERN = {L};", (0, "table_properties", "pattern"), "sql", None)
+POS["sf_catalog"] = ("CREATE TABLE t (\n  a int\n) CATALOG = {L};", (0, "table_properties", "catalog"), "snowflake", None)
+POS["sf_table_format"] = ("CREATE TABLE t (\n  a int\n) TABLE_FORMAT = {L};", (0, "table_properties", "table_format"), "sql", None)
+POS["sf_file_format_type"] = ("CREATE TABLE t (\n  a int\n) STAGE_FILE_FORMAT = (TYPE = {L} NULL_IF = ('NA'));", (0, "table_properties", "stage_file_format", "TYPE"), "sql", None)
+POS["sf_null_if"] = ("CREATE TABLE t (\n  a int\n) FILE_FORMAT = (TYPE = CSV NULL_IF = ('NA', {L}));", (0, "table_properties", "file_format", "NULL_IF", 1), "snowflake", None)
 # double-quoted literals (BigQuery / MySQL style) are read as literals in every position but these three (calibrated on the pinned tree)
 NO_DOUBLE_QUOTED = {"colcomment", "schemacomment", "tabcomment_hql"}
 EXTRA_PATHS = {"alterdefault": [(0, "alter", "defaults", 0, "value")]}
@@ -219,8 +225,8 @@ def check_case(ctx, case):
         got = _get(r[1], *path)
     except (KeyError, IndexError, TypeError):
         k = kfkey if feat in ("blockopen", "blockclose") else None
-        if k is None and pos in ("bq_coloption", "bq_taboption") and lit[:1] == "'" and "''" in lit[1:-1] and r[1] == []:
-            # listed defect: OPTIONS(key=value) reads exactly one string token, a doubled quote makes two; only 'statement lost' is listed
+        if k is None and pos in ("bq_coloption", "bq_taboption", "sf_file_format_type") and lit[:1] == "'" and "''" in lit[1:-1] and r[1] == []:
+            # listed defect: key=value lists read by id_equals (OPTIONS(..), FILE_FORMAT = (..)) take exactly one string token, a doubled quote makes two; only 'statement lost' is listed
             k = "C07:doubled-quote-in-options-literal"
         ctx.violation("literal_position_missing", dict(case, ddl=ddl), {"result": short(r[1], 400)}, kf=k)
         return
